@@ -1,6 +1,7 @@
 (* C10 property theorems: statements only, each closed by [exact]. *)
 From Boltons Require Import Lib.Prelude Spec.C10_Spec Model.C10_Model
-  Proofs.C10_Barrel Proofs.C10_Queue Proofs.C10_SpecFacts Proofs.C10_Big Proofs.C10_Heapq.
+  Proofs.C10_Barrel Proofs.C10_Queue Proofs.C10_SpecFacts Proofs.C10_Big Proofs.C10_Heapq
+  Gen.C10_Src Proofs.C10_SrcEq.
 
 (* ---- the reference itself says what the property text says --------------------- *)
 (* pop/peek serve a live task of highest priority; everything inserted before it
@@ -232,3 +233,23 @@ Example C10_big_example :
   let o := mkBigObs 8 [9; 5; 1; 0; 3; 4; 6; 8]%N true in
   big_ok p o = true /\ spec_run [] (big_ops p 8) = big_expected p o.
 Proof. split; vm_compute; reflexivity. Qed.
+
+(* ---- (T) tie: the source text of _translate_index, regenerated on every run ------------ *)
+(* Gen.C10_Src.src_translate_index is produced from boltons/listutils.py by
+   harness/translators/c10_src.py each time the check runs; None is the sentinel -1 *)
+Theorem C10_translate_index_src_eq : forall (A : Type) (ls : barrel (A := A)) (index : Z),
+  ls <> [] ->
+  src_translate_index ls index =
+  match translate_index ls index with
+  | Ok (Some (li, rel)) => (Z.of_nat li, rel)
+  | _ => ((-1)%Z, (-1)%Z)
+  end.
+Proof. exact @src_translate_index_eq. Qed.
+Print Assumptions C10_translate_index_src_eq.
+
+Example C10_translate_index_src_example :
+  src_translate_index [[10; 11]; []; [12]; [13; 14]] 3 = (3%Z, 0%Z) /\
+  src_translate_index [[10; 11]; []; [12]; [13; 14]] (-1) = (3%Z, 1%Z) /\
+  src_translate_index [[10; 11]; []; [12]; [13; 14]] 5 = (3%Z, 2%Z) /\
+  src_translate_index [[10; 11]; []; [12]; [13; 14]] (-6) = ((-1)%Z, (-1)%Z).
+Proof. vm_compute. repeat split. Qed.
